@@ -421,7 +421,19 @@ impl<'a, 'b, CS: ChainStore + VersionbitsIndexer + 'static> BlockTxsVerifier<'a,
                             }
                             .into()
                         })
-                        .map(|_| (wtx_hash, *completed))
+                        // with scripts skipped (assume-valid) a miss records zero cycles; a hit
+                        // must record the same, or the stored cycles depend on the cache
+                        .map(|_| {
+                            let completed = if skip_script_verify {
+                                Completed {
+                                    cycles: 0,
+                                    fee: completed.fee,
+                                }
+                            } else {
+                                *completed
+                            };
+                            (wtx_hash, completed)
+                        })
                 } else {
                     ContextualTransactionVerifier::new(
                         Arc::clone(tx),
